@@ -3,6 +3,7 @@ package props
 import (
 	"errors"
 	"fmt"
+	"io"
 	"sort"
 
 	gots "github.com/Comcast/gots/v2"
@@ -47,7 +48,7 @@ func (c07) Info() core.Info {
 			"pointer_field is 0 (the statement does not quantify over pointer_field for the PAT) and program numbers are distinct",
 			"after an injected reader error ReadPAT may return that error or the exact answer; nothing else is relaxed",
 		},
-		RequiredProbes: []string{"entries_0", "entries_1_program", "entries_1_network", "entries_ge3", "entries_42", "pid_gt_255", "pat_after_foreign", "no_pat", "eof_inside_pat", "one_byte_reads", "second_pat_ignored", "pat_with_af", "caller_scribbles_program_map", "held_pat_rechecked", "af_only_packet_before_pat"},
+		RequiredProbes: []string{"entries_0", "entries_1_program", "entries_1_network", "entries_ge3", "entries_42", "pid_gt_255", "pat_after_foreign", "no_pat", "eof_inside_pat", "one_byte_reads", "second_pat_ignored", "pat_with_af", "caller_scribbles_program_map", "held_pat_rechecked", "af_only_packet_before_pat", "buffer_reused_for_next_pat", "pat_after_70000_packets"},
 	}
 }
 
@@ -401,6 +402,97 @@ func (c07) Exec(script interface{}, c *core.Ctx) {
 	}
 	held = append(held, heldPAT{p, "stream"})
 	c07Recheck(c, s, held, checkPAT)
+	if c.Failed() {
+		return
+	}
+	// the caller re-uses one buffer for successive tables of the same size: what the
+	// library answers for the new table must not come from the previous one
+	if n > 0 {
+		buf := append([]byte(nil), payload...)
+		var pa psi.PAT
+		var err error
+		if !c.Call("psi.NewPAT(reused buffer, first)", func() { pa, err = psi.NewPAT(buf) }) {
+			return
+		}
+		if err == nil {
+			var pk packet.Packet
+			pid0 := s.PAT.Entries[0].PID & 0x1fff
+			pk[0], pk[1], pk[2], pk[3] = 0x47, byte(pid0>>8), byte(pid0), 0x10
+			c.Call("psi.IsPMT(first)", func() { psi.IsPMT(&pk, pa) })
+			other := s.PAT
+			other.Entries = append([]ref.PATEntry(nil), s.PAT.Entries...)
+			for i := range other.Entries {
+				other.Entries[i].PID = (other.Entries[i].PID + 0x155) & 0x1fff
+			}
+			copy(buf, ref.Payload(0, [][]byte{other.Section()}, 0))
+			keepSpec, keepMap := s.PAT, wantMap
+			s2 := *s
+			s2.PAT = other
+			wantMap = map[int]int{}
+			for _, e := range other.Entries {
+				if e.Program != 0 {
+					wantMap[e.Program] = e.PID
+				}
+			}
+			s2.ProbePID = append([]int{pid0, other.Entries[0].PID}, s.ProbePID...)
+			sOrig := s
+			s = &s2
+			var pb psi.PAT
+			okb := c.Call("psi.NewPAT(reused buffer, second)", func() { pb, err = psi.NewPAT(buf) })
+			if okb && err == nil {
+				c.Probe("buffer_reused_for_next_pat")
+				checkPAT(pb, "reused_buffer")
+			}
+			s, wantMap = sOrig, keepMap
+			_ = keepSpec
+		}
+	}
+	if c.Failed() {
+		return
+	}
+	// a PAT far into a long stream (packets generated on the fly)
+	if s.Salt%700 == 0 {
+		far := 70000 + s.Salt%1000
+		gr := &c07GenReader{foreign: far, pat: patPkt}
+		var pl psi.PAT
+		var err error
+		if !c.Call("psi.ReadPAT(long stream)", func() { pl, err = psi.ReadPAT(gr) }) {
+			return
+		}
+		c.Probe("pat_after_70000_packets")
+		if err != nil {
+			c.Fail("carrier_stream", "stream:pat_far_into_the_stream_not_found", err, nil)
+			return
+		}
+		checkPAT(pl, "long_stream")
+	}
+}
+
+// c07GenReader yields `foreign` null packets, then the PAT packet, then EOF.
+type c07GenReader struct {
+	foreign int
+	pat     parties.Pkt
+	cur     []byte
+	done    bool
+}
+
+func (g *c07GenReader) Read(p []byte) (int, error) {
+	if len(g.cur) == 0 {
+		switch {
+		case g.foreign > 0:
+			g.foreign--
+			pk := parties.NullPacket(g.foreign)
+			g.cur = pk[:]
+		case !g.done:
+			g.done = true
+			g.cur = append([]byte(nil), g.pat[:]...)
+		default:
+			return 0, io.EOF
+		}
+	}
+	k := copy(p, g.cur)
+	g.cur = g.cur[k:]
+	return k, nil
 }
 
 // c07Recheck decodes a different PAT through every carrier and then checks the
